@@ -57,6 +57,9 @@ CLAIMED = {
  "C19": ("generated linear directed chains queried against a closed-form reference law, with metamorphic checks (atom renumbering, sum over lengths, foreign molecules)",
          "Molecules of 1-2 blocks of one directed repeat unit (generated chemistry incl. symmetric and locally symmetric tokens), prefix or end-group start, suffix or end-group end, six families; for every chain length up to a reference tail of 1e-9 the reported ensemble probability must equal the product of the closed-form window probabilities, must be the same for RDKit's canonical and two random atom orders, the values must sum to 1, and foreign molecules (changed atom, a block without repeat unit) must get 0. Two recorded defects of get_ensemble_prob are reported as KNOWN-FINDING by structural signature.",
          "Trusted: gbsv/refdist.py closed forms; reference molecules assembled from the AST; P(T<0) negligible by construction.", "DESIGN.md §2 C19"),
+ "C20": ("generated typing histories with totality / element-mass oracles, a renumbering metamorphic relation and a differential oracle against a pristine forked baseline",
+         "Histories of 3-7 typing calls over generated molecules (force-field chemistry, untypable ones, partially generated ones with open descriptors of weight 0/1/2) using default files, explicit copies of the bundled files, the forcefield_types property, or a randomly renumbered copy; a successful typing must give exactly one parameter set per atom of the H-added molecule with the element's mass, a failure must be FfAssignmentError carrying partial assignment and molecule, partial molecules must be refused with RuntimeError, renumbered copies must get the same parameters atom by atom, and every result must equal the pristine fork's default typing.",
+         "Trusted: RDKit periodic table; fork baseline; repr of the parameter dataclass.", "DESIGN.md §2 C20"),
  "C15": ("breaking operators on generated valid instances with a must-be-rejected oracle (Hypothesis) + byte-level mutation and coverage-guided fuzzing (atheris/libFuzzer) under a deterministic step budget",
          "Generated-input search: 17 breaking operators, each producing an invalid string by construction, are applied at generated positions to valid well-posed molecules of every archetype; the broken string must end in an error at parse or at generate (non-generable for negative weights / missing distribution) - a produced molecule is the violation. Termination of the five constructors is explored with Hypothesis byte mutations of docs/tests strings and two atheris campaigns (seeded and empty corpus) under a line-event budget.",
          "Trusted: each operator's claim that its output is invalid (stated per operator in gbsv/checks/c15.py); termination is bounded liveness: 20000+2000*len line events inside gbigsmiles.", "DESIGN.md §2 C15"),
